@@ -495,7 +495,8 @@ def _closure(ctx: Ctx, r: RuleResult):
         if c.is_enum:
             for name, node in c.enum_members.items():
                 v = ctx.ev.enum_value(EnumMember(c.name, name), 0)
-                okv = (isinstance(v, Const) and isinstance(v.value, (int, str))) or (isinstance(v, Call) and isinstance(v.func, Ext) and v.func.name.endswith('auto')) or (isinstance(v, Op) and v.op in ('|', '&'))
+                okv = (isinstance(v, Const) and isinstance(v.value, (int, str))) or (isinstance(v, Call) and isinstance(v.func, Ext) and v.func.name.endswith('auto')) or (isinstance(v, Op) and v.op in ('|', '&')) \
+                    or (c.is_flag and ctx.ev.flag_bits(EnumMember(c.name, name)) is not None)     # a set of flags is an int
                 if not okv:
                     r.fail(f'{c.name}.{name}:json', f'enum member value {v!r} is not an int/str: not JSON-native after the Enum -> .value mapping', c.where)
             r.ok(f'enum {c.name}: values int/str')
